@@ -2,6 +2,7 @@ package props
 
 import (
 	"bufio"
+	"encoding/base64"
 	"encoding/json"
 	"fmt"
 	"golang.org/x/sys/unix"
@@ -66,7 +67,10 @@ func c10methods() []c10method {
 		{"HideCursor", func(s tcell.Screen, i int) { s.HideCursor() }, true},
 		{"SetCursorStyle", func(s tcell.Screen, i int) { s.SetCursorStyle(tcell.CursorStyle(i%7), tcell.PaletteColor(i%8)) }, true},
 		{"Size", func(s tcell.Screen, i int) { s.Size() }, true},
-		{"PollEvent", func(s tcell.Screen, i int) { _ = s.PostEvent(tcell.NewEventInterrupt(i)); s.PollEvent() }, true},
+		{"PollEvent", func(s tcell.Screen, i int) {
+			_ = s.PostEvent(tcell.NewEventInterrupt(i))
+			c10useEvent(s.PollEvent(), c10heldOf(curGoid()))
+		}, true},
 		{"HasPendingEvent", func(s tcell.Screen, i int) { s.HasPendingEvent() }, true},
 		{"PostEvent", func(s tcell.Screen, i int) { _ = s.PostEvent(tcell.NewEventInterrupt(i)) }, true},
 		{"EnableMouse", func(s tcell.Screen, i int) { s.EnableMouse(tcell.MouseFlags(1 + i%7)) }, true},
@@ -121,6 +125,64 @@ func c10useResult(mainc rune, combc []rune, st tcell.Style, width int) {
 }
 
 var c10sink atomic.Int64
+
+// c10useEvent is the application using an event it received (PollEvent / ChannelEvents),
+// after the call: it reads what the event carries. The payload of a clipboard event is kept
+// and looked at again when later events arrive: an event belongs to the application once
+// delivered, so its contents must neither be written by the library any more (a data race,
+// attributed like c10useResult) nor change.
+//
+//go:noinline
+func c10useEvent(ev tcell.Event, held *c10held) {
+	if ev == nil {
+		return
+	}
+	if held.data != nil {
+		if got := held.ev.Data(); string(got) != held.copy && held.problem.Load() == nil {
+			held.problem.Store(fmt.Sprintf("the payload of a delivered clipboard event changed while the application held it: was %q, is %q", held.copy, string(got)))
+		}
+	}
+	sum := int64(0)
+	switch e := ev.(type) {
+	case *tcell.EventClipboard:
+		d := e.Data()
+		for _, b := range d {
+			sum += int64(b)
+		}
+		held.ev, held.data, held.copy = e, d, string(d)
+	case *tcell.EventKey:
+		sum = int64(e.Rune()) + int64(e.Key())
+	case *tcell.EventMouse:
+		x, y := e.Position()
+		sum = int64(x + y)
+	}
+	c10sink.Store(sum)
+}
+
+var (
+	c10heldMu      sync.Mutex
+	c10heldBy      map[int64]*c10held
+	c10heldProblem *atomic.Value
+)
+
+func c10heldOf(goid int64) *c10held {
+	c10heldMu.Lock()
+	defer c10heldMu.Unlock()
+	h := c10heldBy[goid]
+	if h == nil {
+		h = &c10held{problem: c10heldProblem}
+		c10heldBy[goid] = h
+	}
+	return h
+}
+
+// c10held: the clipboard event one consumer goroutine is holding on to.
+type c10held struct {
+	ev      *tcell.EventClipboard
+	data    []byte
+	copy    string
+	problem *atomic.Value
+}
 
 // c10draw wraps Show/Sync calls of the job under test (one job at a time per
 // worker process); the job installs a checker of the write log.
@@ -269,6 +331,14 @@ func c10runJob(j c10job) (out c10out) {
 				termErr.Store("output is not well formed: " + term.Errors[0])
 			}
 		}
+		for _, n := range j.Methods {
+			if n == "SuspendResume" && j.Idx%2 == 0 {
+				// every second job with Suspend/Resume cycles: one read of the tty fails while the
+				// screen is engaged (the input loop ends; the next Resume has to bring up exactly
+				// one set of loops again)
+				ft.ReadErrAt = 25
+			}
+		}
 		var err error
 		s, err = tcell.NewTerminfoScreenFromTtyTerminfo(ft, ti)
 		if err != nil {
@@ -332,6 +402,14 @@ func c10runJob(j c10job) (out c10out) {
 					}
 					continue
 				}
+				if k%15 == 7 {
+					// the terminal answers a clipboard query (OSC 52), more input right behind it
+					select {
+					case ft.FeedC() <- []byte(fmt.Sprintf("\x1b]52;c;%s\x07", base64.StdEncoding.EncodeToString([]byte(fmt.Sprintf("clipboard text %d of the job, long enough to matter", k))))):
+					case <-time.After(200 * time.Microsecond):
+					}
+					continue
+				}
 				select {
 				case ft.FeedC() <- []byte(fmt.Sprintf("k\x1b[<0;%d;%dMé", 1+k%40, 1+k%10)):
 				case <-time.After(200 * time.Microsecond):
@@ -353,11 +431,18 @@ func c10runJob(j c10job) (out c10out) {
 	}
 	// a drainer keeps the event queue moving unless PollEvent is itself under test
 	drainQuit := make(chan struct{})
+	var evProblem atomic.Value
+	c10heldMu.Lock()
+	c10heldBy = map[int64]*c10held{}
+	c10heldProblem = &evProblem
+	c10heldMu.Unlock()
 	if !hasPoll {
 		drained := make(chan tcell.Event, 8)
 		go s.ChannelEvents(drained, drainQuit)
 		go func() {
-			for range drained {
+			held := &c10held{problem: &evProblem}
+			for ev := range drained {
+				c10useEvent(ev, held)
 			}
 		}()
 	}
@@ -472,6 +557,9 @@ func c10runJob(j c10job) (out c10out) {
 	if e := termErr.Load(); e != nil {
 		out.Sig, out.Problem = "output-corrupted:"+strings.Join(j.Methods, "|"), e.(string)
 	}
+	if e := evProblem.Load(); e != nil {
+		out.Sig, out.Problem = "event-payload-changed:"+strings.Join(j.Methods, "|"), e.(string)
+	}
 	if term != nil {
 		out.Controls = term.Controls
 	}
@@ -544,7 +632,7 @@ func parseRaceLog(text string) []raceReport {
 					tcellAccesses++
 					break
 				}
-				if i < 3 && strings.HasPrefix(f, "verif/props.c10useResult") {
+				if i < 3 && (strings.HasPrefix(f, "verif/props.c10useResult") || strings.HasPrefix(f, "verif/props.c10useEvent")) {
 					tcellAccesses++
 					break
 				}
